@@ -447,7 +447,7 @@ func (w *world) settleFor(quiet time.Duration) {
 	deadline := time.Now().Add(400 * time.Millisecond)
 	for time.Now().Before(deadline) {
 		w.mu.Lock()
-		idle := (w.recvIdle || w.closedT) && len(w.toConn) == 0 && time.Since(w.lastEvent) > quiet
+		idle := (w.closedT || (w.recvIdle && len(w.toConn) == 0)) && time.Since(w.lastEvent) > quiet
 		w.mu.Unlock()
 		if idle {
 			return
@@ -570,6 +570,18 @@ func runScript(id string, script []action) (trace []J, hang string) {
 		case <-time.After(2 * time.Second):
 			w.log(J{"ev": "not-done"})
 		}
+		// no internal lock stays held after the connection is gone
+		view := "free"
+		for i := 0; i < 20; i++ {
+			mu, snd := conn.VerifLocksFree()
+			if mu && snd {
+				view = "free"
+				break
+			}
+			view = fmt.Sprintf("held:mu=%v,sender=%v", !mu, !snd)
+			time.Sleep(5 * time.Millisecond)
+		}
+		w.log(J{"ev": "view", "kind": view})
 		w.log(J{"ev": "end"})
 	}()
 	select {
